@@ -7,14 +7,14 @@ import ALV.Lemmas.C03PStep
 import ALV.Lemmas.C03Hist
 
 namespace ALV.C03
-variable {α : Type}
+variable {α : Type} {L : Bool}
 open LSeq
 
-theorem prel_empty : PRel ([] : List (LSeq α)) St.empty [] :=
+theorem prel_empty : PRel L ([] : List (LSeq α)) (St.empty : St α) [] :=
   ⟨⟨rfl, fun k hub hk => by simp [St.empty] at hk⟩, fun i => by simp [St.empty]; exact trivial⟩
 
 /-- a history in which every step of the model returns: the observations are the list model's -/
-theorem run_sound_from {E : List (LSeq α)} {st : St α} {sp : SPool α} (R : PRel E st sp) (f : Nat)
+theorem run_sound_from {E : List (LSeq α)} {st : St α} {sp : SPool α} (R : PRel false E st sp) (f : Nat)
     (ops : List (Op α)) (hterm : ∀ o, o ∈ run f st ops → o ≠ none) :
     run f st ops = specRun sp ops := by
   induction ops generalizing E st sp with
@@ -24,13 +24,13 @@ theorem run_sound_from {E : List (LSeq α)} {st : St α} {sp : SPool α} (R : PR
     | none => exact absurd rfl (hterm none (by simp [run, hs]))
     | some x =>
       obtain ⟨st', o⟩ := x
-      obtain ⟨E', sp', spec, R'⟩ := step_sound R op f st' o hs
+      obtain ⟨E', sp', spec, R'⟩ := step_sound R op (opLive_false sp op) f st' o hs
       have := ih R' (fun o' ho' => hterm o' (by simp [run, hs, ho']))
       simp [run, specRun, hs, spec, this]
 
 /-- every history, whatever the fuel: each observation the model makes before it runs out of
     fuel is the observation of the list model at the same step -/
-theorem run_sound_prefix {E : List (LSeq α)} {st : St α} {sp : SPool α} (R : PRel E st sp) (f : Nat)
+theorem run_sound_prefix {E : List (LSeq α)} {st : St α} {sp : SPool α} (R : PRel false E st sp) (f : Nat)
     (ops : List (Op α)) (k : Nat) (o : Obs α) (hk : (run f st ops)[k]? = some (some o)) :
     (specRun sp ops)[k]? = some (some o) := by
   induction ops generalizing E st sp k with
@@ -44,7 +44,7 @@ theorem run_sound_prefix {E : List (LSeq α)} {st : St α} {sp : SPool α} (R : 
       | succ k => simp at hk
     | some x =>
       obtain ⟨st', o'⟩ := x
-      obtain ⟨E', sp', spec, R'⟩ := step_sound R op f st' o' hs
+      obtain ⟨E', sp', spec, R'⟩ := step_sound R op (opLive_false sp op) f st' o' hs
       simp only [run, hs] at hk
       simp only [specRun, spec]
       cases k with
@@ -52,7 +52,7 @@ theorem run_sound_prefix {E : List (LSeq α)} {st : St α} {sp : SPool α} (R : 
       | succ k => simp at hk ⊢; exact ih R' k hk
 
 /-- the same for histories with the caller's containers: observations and final lists -/
-theorem hrun_sound_from {E : List (LSeq α)} {st : St α} {sp : SPool α} (R : PRel E st sp) (f : Nat)
+theorem hrun_sound_from {E : List (LSeq α)} {st : St α} {sp : SPool α} (R : PRel false E st sp) (f : Nat)
     (ls : List (List α)) (hops : List (HOp α))
     (hterm : ∀ o, o ∈ (hrun f ⟨st, ls⟩ hops).1 → o ≠ none) :
     hrun f ⟨st, ls⟩ hops = hspecRun ⟨sp, ls⟩ hops := by
@@ -70,7 +70,7 @@ theorem hrun_sound_from {E : List (LSeq α)} {st : St α} {sp : SPool α} (R : P
       | none => exact absurd rfl (hterm none (by simp [hrun, hk, stepKeep, hs]))
       | some x =>
         obtain ⟨st', ob⟩ := x
-        obtain ⟨E', sp', spec, R'⟩ := step_sound R op f st' ob hs
+        obtain ⟨E', sp', spec, R'⟩ := step_sound R op (opLive_false sp op) f st' ob hs
         have a : hstep f ⟨st, ls⟩ hop = some (⟨st', keep ls ob⟩, ob) := by
           rw [hk]; simp [stepKeep, hs]
         have b : hspecStep ⟨sp, ls⟩ hop = some (⟨sp', keep ls ob⟩, ob) := by
